@@ -119,6 +119,16 @@ def gen_case(rng, focus: str | None = None) -> dict:
                 while uses(ps, ("uuid", "time")) or uses_self(ps):
                     ps = gen_pschema(rng, sid, nsch)
             props.append({"name": nm, "required": rng.random() < 0.4, "nullable": rng.random() < 0.15, "schema": ps})
+        # Inline enums are promoted to a class named <Schema><SanitizedProp>; two enum properties whose names sanitise
+        # to the same class name silently share the FIRST one's Enum class (conforming values of the other are then
+        # rejected — a defect of schema promotion, reported as F03d / C02 territory, not modelled here): keep one.
+        seen_enum_classes: set[str] = set()
+        for p in props:
+            if isinstance(p["schema"], list) and p["schema"][0] == "enum":
+                cn = enum_class_name(p["name"])
+                if cn in seen_enum_classes:
+                    p["schema"] = "int"
+                seen_enum_classes.add(cn)
         schemas.append({"id": sid, "name": f"M{sid}", "props": props})
     docs = []
     for _ in range(rng.randint(3, 6)):
@@ -132,6 +142,11 @@ def gen_doc_schema(rng, schemas, sid, depth, z_ok) -> Any:
     if "map" in s:
         return gen_doc_val(rng, schemas, ["map", s["map"]], depth, z_ok)
     return gen_doc_obj(rng, schemas, sid, depth, z_ok)
+
+
+def enum_class_name(prop: str) -> str:
+    from pyopenapi_gen.core.utils import NameSanitizer
+    return NameSanitizer.sanitize_class_name(prop)
 
 
 def uses(ps, fmts) -> bool:
